@@ -1001,6 +1001,14 @@ class Interp:
                     cls.attrs[k] = member
                 cls.enum_members.append(k)
         cls.mro = self._c3(cls)
+        # PEP 487: the nearest base class that defines __init_subclass__ is told about the new class
+        for b in cls.mro[1:]:
+            if isinstance(b, ClassInfo) and "__init_subclass__" in b.attrs:
+                hook = b.attrs["__init_subclass__"]
+                if isinstance(hook, FuncRef):
+                    kw = {k.arg: self.eval(k.value, env) for k in node.keywords if k.arg and k.arg != "metaclass"}
+                    self.call_function(FuncRef(hook.info, hook.env, hook.defaults, "function"), [cls], kw)
+                break
         # dataclass inheritance marker is per class; decorators applied after
         result: Any = cls
         for dec in reversed(node.decorator_list):
